@@ -87,6 +87,8 @@ func auDirectives(c *auCase) string {
 	if c.Ctl != "" {
 		fmt.Fprintf(&sb, "SecAction \"id:5,phase:1,pass,nolog,ctl:auditEngine=%s\"\n", c.Ctl)
 	}
+	// fires only for the predecessor transaction (header X-Pred), which is abandoned before the logging phase
+	sb.WriteString("SecRule REQUEST_HEADERS:X-Pred \"@streq 1\" \"id:99,phase:1,pass,log,auditlog\"\n")
 	acts := append([]string{"id:10", fmt.Sprintf("phase:%d", c.P1), "pass"}, c.F1...)
 	fmt.Fprintf(&sb, "SecAction \"%s\"\n", strings.Join(acts, ","))
 	if c.Deny {
@@ -98,7 +100,7 @@ func auDirectives(c *auCase) string {
 
 // C19: audit and error logging record exactly what happened, once, intact.
 func C19(run *vf.Run) {
-	run.Rule = "Audit.tla: the audit decision (engine On / Off / RelevantOnly, switched or not by ctl:auditEngine; relevant-status pattern; status source = interruption, would-be interruption in DetectionOnly, or response status), the rules a record lists (fired and audit-enabled after folding log / nolog / auditlog / noauditlog in order over the phase defaults) and the error-callback count (once per fired rule with logging on) as TLA+ functions over the full case table; TLC enumerates the table and every case is replayed on the real library with a capturing audit writer registered through the plugin API and an error callback; then a transaction that changes its own parts (ctl:auditLogParts=+X / -X) must still write a balanced native record; then the writers are stressed: the concurrent writer (one file per transaction + shared index, entries must not interleave) and the serial writer: G goroutines x N transactions with adversarial header / body / message bytes share one log file in JSON and in native format, the file must hold exactly one well-formed record per transaction, none interleaved or lost. Non-trivial = case that writes a record or fires a callback"
+	run.Rule = "Audit.tla: the audit decision (engine On / Off / RelevantOnly, switched or not by ctl:auditEngine; relevant-status pattern; status source = interruption, would-be interruption in DetectionOnly, or response status), the rules a record lists (fired and audit-enabled after folding log / nolog / auditlog / noauditlog in order over the phase defaults) and the error-callback count (once per fired rule with logging on) as TLA+ functions over the full case table; TLC enumerates the table and every case is replayed on the real library (behind a predecessor transaction on the same WAF that fired an audit-enabled rule and was abandoned before its logging phase) with a capturing audit writer registered through the plugin API and an error callback; then a transaction that changes its own parts (ctl:auditLogParts=+X / -X) must still write a balanced native record; then the writers are stressed: the concurrent writer (one file per transaction + shared index, entries must not interleave) and the serial writer: G goroutines x N transactions with adversarial header / body / message bytes share one log file in JSON and in native format, the file must hold exactly one well-formed record per transaction, none interleaved or lost. Non-trivial = case that writes a record or fires a callback"
 	run.Exhaustive = true
 	run.Assume("RelevantOnly without SecAuditLogRelevantStatus is left open (either outcome accepted)")
 	c19once.Do(func() {
@@ -191,6 +193,15 @@ func C19(run *vf.Run) {
 				return
 			}
 			defer closeAny(w)
+			// a predecessor on the same WAF fires an audit-enabled rule and is closed without its logging phase: the
+			// transaction of the case, which the pool may serve with the same object, is a finished transaction of its own
+			pred := w.NewTransactionWithID(fmt.Sprintf("c19-pred-%d", i))
+			pred.AddRequestHeader("X-Pred", "1")
+			pred.ProcessRequestHeaders()
+			_ = pred.Close()
+			cbmu.Lock()
+			cb = nil
+			cbmu.Unlock()
 			id := fmt.Sprintf("c19-%d", i)
 			tx := w.NewTransactionWithID(id)
 			tx.ProcessConnection("10.0.0.1", 1, "10.0.0.2", 80)
